@@ -111,4 +111,8 @@ theorem C06_fresh_counterexample :
     (step (run { pubPass := ⟨0, true⟩ } (ops.take 3)) (.genPub (some 0))).2 = .keys 0 false 1 1 ∧
     (step w (.genPub (some 0))).2 = .keys 0 false 1 1 := by decide
 
+/-- the index arithmetic of `nextAddresses` the model transcribes stands in the source as transcribed (regenerated):
+    the next index comes from the stored counter inside the transaction, the limit test, the key's index = counter - 1 -/
+theorem C06_condition_facts : Facts.condWalletNext = true := by decide
+
 end MassVerif.Wallet
